@@ -251,8 +251,10 @@ func vImportGraphs() (n int, fails []string) {
 // @page selector parsing never panics on any prelude (C07): invalid selectors give nil.
 // vPreludeTok: what the tokenizer guarantees of the prelude (assumed here): no nil token,
 // and inside a function block no identifier or number with an empty representation.
+// (C12: page pseudo-classes are ASCII case-insensitive, like every CSS keyword: `@page :First` is `@page :first`)
 //@ func parsePageSelectors
-//@   props C07
+//@   props C07 C12
+//@   assert after pseudoClass#1: pseudoClass == callresult(AsciiLower, 1)
 //@   nopanic
 //@   modifies nothing
 //@   requires forall(j, 0, len(rule.Prelude), rule.Prelude[j] != nil)
